@@ -23,7 +23,8 @@ Inductive eres := EVal (text : str) | EErr (cls msg : str).
 
 (* the gate: absent/blank condition is true; a failure is false whatever its text; otherwise
    str2bool(str(result)) *)
-Definition blank (s : str) : bool := forallb (fun c => (c =? 32) || (c =? 9) || (c =? 10) || (c =? 13) || (c =? 11) || (c =? 12)) s.
+(* blank = Python's len(s.strip()) == 0: every character is one of the whitespace code points (Base.py_space) *)
+Definition blank (s : str) : bool := forallb py_space s.
 Definition truth (r : eres) : bool := match r with EVal t => str2bool t | EErr _ _ => false end.
 Definition gate (cond : option str) (ev : str -> eres) : bool :=
   match cond with
